@@ -787,7 +787,23 @@ func (r *p2pRun) directedMessages() []directedMsg {
 	}
 	// shuffle deterministically so that a short run still sees every family
 	r.c.R.Shuffle(len(out), func(i, j int) { out[i], out[j] = out[j], out[i] })
-	return out
+	// first of all, on every run however short: the requests that used to break the node. F7a (repaired in d85e958): a
+	// GetBlockHashesMsg naming a hash the node does not hold made the handler panic. F7b (repaired in 99f2642):
+	// GetBlockHashesFromNumberMsg (0,0), (0,1), (1,0) was answered with the hash of every momentum of the chain. The monitors in
+	// oneMessage (class=panic, class=reply-over-cap) report either as a violation should it come back.
+	var first []directedMsg
+	var flipped types.Hash = r.hashes[H-1]
+	flipped[31] ^= 1
+	for _, h := range []types.Hash{unknown, types.ZeroHash, flipped} {
+		for _, a := range []uint64{0, 1, 512, math.MaxUint64} {
+			first = append(first, directedMsg{protocol.GetBlockHashesMsg, mustRlp(&reqHashes{h, a}), "regress-unknown-hash"})
+		}
+	}
+	for _, q := range [][2]uint64{{0, 0}, {0, 1}, {1, 0}} {
+		first = append(first, directedMsg{protocol.GetBlockHashesFromNumberMsg, mustRlp(&reqHashesFromNumber{q[0], q[1]}),
+			fmt.Sprintf("regress-ghn-%d-%d", q[0], q[1])})
+	}
+	return append(first, out...)
 }
 
 func (r *p2pRun) oneMessage(code uint64, size uint32, pay []byte, label string) {
